@@ -304,6 +304,9 @@ class Bag(Factory, Container):
                         else:
                             raise JsonFormatException(nv["v"], f"Bag.values {i} v (range {range})")
 
+                        if v in values:
+                            # the same value listed twice: a dict cannot hold both, so one of them would be lost
+                            raise JsonFormatException(nv["v"], f"Bag.values {i} v (duplicate value)")
                         values[v] = n
 
                     else:
